@@ -161,7 +161,7 @@ func sendModes(mode string) {
 	k := pickKind()
 	d := deadlines[kit.ChooseFree(len(deadlines))]
 
-	x := k.Open("c18s", true, true)
+	x := k.OpenQ("c18s", true, 1)
 	x.Quiet()
 	if !k.CanSend {
 		c := kit.Start("Send", func() (interface{}, error) { return nil, x.Send("x") })
@@ -273,7 +273,12 @@ func sendModes(mode string) {
 func failNoPeers() {
 	k := pickKind()
 	variant := kit.ChooseFree(3)
-	x := k.Open("c18f", variant != 0, true)
+	var x *kinds.Sock
+	if variant == 0 {
+		x = k.Open("c18f", false, true)
+	} else {
+		x = k.OpenQ("c18f", true, 1)
+	}
 	x.Quiet()
 	if err := x.S.SetOption(mangos.OptionFailNoPeers, true); err != nil {
 		if err == mangos.ErrBadOption {
